@@ -302,7 +302,7 @@ type IllegalCase struct {
 
 var illegalKinds = []string{"config-true-under-false", "config-true-under-false-deep", "config-true-in-grouping-used-under-false", "status-strengthened", "status-strengthened-deep",
 	"current-uses-deprecated-grouping", "current-type-obsolete-typedef", "deprecated-type-obsolete-typedef", "current-iffeature-deprecated-feature", "current-base-deprecated-identity",
-	"current-refine-deprecated-node", "current-uses-augment-deprecated-node", "current-augment-deprecated-node", "current-grouping-uses-deprecated-grouping",
+	"current-refine-deprecated-node", "current-uses-augment-deprecated-node", "current-augment-deprecated-node", "current-grouping-uses-deprecated-grouping", "current-typedef-type-deprecated-typedef",
 	"deviate-add-existing", "deviate-delete-missing", "deviate-delete-wrong-value", "deviate-replace-missing", "not-supported-plus-other", "deviate-add-not-allowed", "deviate-unknown-target", "deviate-replace-not-allowed"}
 
 func leaf(name string) *sg.Node {
@@ -415,6 +415,26 @@ func buildIllegal(kind string, sub int, legal bool) []*sg.Mod {
 			top.Kids = append(top.Kids, &sg.Node{Kind: "container", Name: "early", Status: "obsolete", Kids: []*sg.Node{{Kind: "uses", Name: ref("g")}}})
 		}
 		top.Kids = append(top.Kids, u)
+	case "current-typedef-type-deprecated-typedef":
+		// a typedef defined in terms of a more obsolete typedef; the legal twin gives the referring typedef (and the leaf
+		// that uses it) the same status
+		st := []string{"deprecated", "obsolete"}[v(2)]
+		tb := &sg.Typedef{Name: "tb", Type: &sg.TypeSpec{Name: "string"}, Status: st}
+		ta := &sg.Typedef{Name: "ta", Type: &sg.TypeSpec{Name: ref("tb")}}
+		l := &sg.Node{Kind: "leaf", Name: "x", Type: &sg.TypeSpec{Name: ref("ta")}}
+		if legal {
+			ta.Status, l.Status = st, st
+		} else if v(2) == 1 {
+			// (the typedef in the middle current, the leaf as obsolete as the inner typedef: still a reference from current)
+			l.Status = st
+			ta.Status = ""
+		}
+		if v(2) == 1 {
+			m.Typedefs = []*sg.Typedef{ta, tb}
+		} else {
+			m.Typedefs = []*sg.Typedef{tb, ta}
+		}
+		top.Kids = append(top.Kids, l)
 	case "current-grouping-uses-deprecated-grouping":
 		// the reference is made by the grouping that holds the uses, wherever that grouping is used from (a deprecated
 		// container, another grouping, nowhere) and in whatever order the groupings are written
